@@ -5,7 +5,7 @@ import (
 	"go/token"
 	"go/types"
 
-	"golang.org/x/tools/go/ssa"
+	"gclverify/xt/ssa"
 )
 
 func init() {
@@ -217,6 +217,13 @@ func runC16(p *Prog, l *Ledger) {
 				}
 				if !last.n.ParamOK {
 					bad = append(bad, fmt.Sprintf("%s: notification routine %s does not deliver its parameter", p.At(last.ins), p.Key(last.n.Fn)))
+					return len(bad) < 3
+				}
+				// the very SSA value that was stored is handed to the routine: only the routine's own conversion matters
+				if strip(pa.Resolve(last.val, last.step), false) == strip(pa.Resolve(lw.val, lw.step), false) {
+					if last.n.ParamFTI != info.FloatInt {
+						bad = append(bad, fmt.Sprintf("%s: the notification routine converts the value differently from EstimatedLimit", p.At(last.ins)))
+					}
 					return len(bad) < 3
 				}
 				argRoot, fti := convChain(pa.Resolve(last.val, last.step))
